@@ -282,3 +282,8 @@ func AllRenderSpecs() []RenderSpec {
 	}
 	return out
 }
+
+// rendererKeys are the public property keys renderers read from columns.
+func rendererKeys() []interface{} {
+	return []interface{}{alignKey(), skipKey()}
+}
